@@ -29,6 +29,23 @@ def groove_oracle(chk, name, kw, g):
         i = int(np.argmax(dev))
         return chk.fail('vertex-on-depth', f"{name}{kw}: contour vertex {i} ({cp[i, 0]:.6g}, {cp[i, 1]:.6g}) is off the depth function "
                         f"by {dev[i]:.3g} (local_depth gives {ld[i]:.6g})", data)
+    # the depth function is one function of the position, whatever numeric type carries the position (whole millimetres as int,
+    # numpy integers, lists or arrays of them)
+    whole = [z for z in range(-int(g.z0), int(g.z0) + 1)][:60]
+    if whole:
+        asfloat = np.array([float(g.local_depth(float(z))) for z in whole])
+        variants = {'int': lambda: np.array([float(g.local_depth(z)) for z in whole]),
+                    'numpy int64': lambda: np.array([float(g.local_depth(np.int64(z))) for z in whole]),
+                    'list of int': lambda: np.asarray(g.local_depth(list(whole)), dtype=float),
+                    'int array': lambda: np.asarray(g.local_depth(np.array(whole)), dtype=float),
+                    'float array': lambda: np.asarray(g.local_depth(np.array(whole, dtype=float)), dtype=float)}
+        for label, f in variants.items():
+            got = f()
+            chk.cov['evaluations'] += len(whole)
+            if got.shape != asfloat.shape or np.max(np.abs(got - asfloat)) > tol:
+                i = int(np.argmax(np.abs(got - asfloat))) if got.shape == asfloat.shape else 0
+                return chk.fail('depth-type', f"{name}{kw}: local_depth at z={whole[i]} given as {label} is {got.flat[i] if got.size else got!r}, "
+                                f"given as float it is {asfloat[i]:.9g}", data)
     # continuity inside the groove: dense scan, no jump larger than what the steepest admissible slope explains
     zs = np.linspace(-g.z0, g.z0, 4001)
     d = np.array([float(g.local_depth(z)) for z in zs])
@@ -192,6 +209,15 @@ def spline_cases(chk, rng, n):
     rendered = []
     for i in range(n):
         pts = spline_polyline(rng)
+        if i % 4 == 3:
+            # whole-number polylines carried by integer types (drawings in whole millimetres): Python ints, lists, integer arrays
+            xs = [rng.choice([-3, -1, 0, 2])]
+            for _ in range(rng.choice([2, 3, 4, 5])):
+                xs.append(xs[-1] + rng.choice([1, 1, 2, 4]))   # dyadic slopes keep the comparison with the rational model exact
+            ys = [0] + [rng.choice([1, 2, 3]) for _ in range(len(xs) - 2)] + [0]
+            pts = list(zip(xs, ys))
+            if rng.random() < 0.5:
+                pts = [list(p) for p in pts]
         uw = rng.choice([None, None, 0, 3.0, 1.5])
         bad = rng.random() < 0.1
         if bad:
